@@ -513,4 +513,23 @@ theorem interp_prefix_ne (A : GenAlg G Draw Out) (hA : Acyclic A) (g0 : G) (t : 
   exact hA _ ds hds
 
 end
+/-- `World.init` is well-formed. -/
+theorem init_wf {G : Type} (g0 : G) : WF (World.init g0) := by
+  intro m r h; simp [World.init] at h
+
+theorem ctr_acyclic : Acyclic ctr := by
+  have key : ∀ (ds : List Nat) (g : Nat), g + ds.length ≤ advDraws ctr g ds := by
+    intro ds
+    induction ds with
+    | nil => intro g; simp
+    | cons d ds ih =>
+      intro g
+      have := ih (g + d + 1)
+      simp only [advDraws_cons, List.length_cons, ctr] at this ⊢
+      omega
+  intro g ds hds
+  have h1 := key ds g
+  have h2 : 0 < ds.length := List.length_pos_iff.mpr hds
+  omega
+
 end CopVerif.Model.Rng
